@@ -14,152 +14,11 @@ func runC01(c *Ctx) {
 
 	// R2: single commit point.
 	r2 := c.Rule("R2", "the only UpdateNoLocks(allOrNothing=true) call in the workspace is the commit point in phase2Commit; phase-1 functions never flip the active id", 8)
-	nTrue := 0
-	for _, f := range w.allDeclared() {
-		for _, cs := range w.AllSites(f) {
-			if cs.Key != kRegUpdNL || len(cs.Call.Args) < 2 {
-				continue
-			}
-			root := cs.In
-			for root.Parent != nil {
-				root = root.Parent
-			}
-			tv := cs.In.Pkg.TypesInfo.Types[cs.Call.Args[1]]
-			construct := fmt.Sprintf("%s: UpdateNoLocks allOrNothing argument #%d", root.Key, ordinalOf(w, root, cs))
-			if tv.Value == nil {
-				// pass-through of the implementation's own parameter is the accepted idiom
-				c.Violated(r2, construct, cs.Call.Pos(), "allOrNothing argument is not a constant; cannot tell whether this is a second commit point", nil)
-				continue
-			}
-			if constant.BoolVal(tv.Value) {
-				nTrue++
-				c.Check(root.Key == kTxp2, r2, construct, cs.Call.Pos(), "all-or-nothing registry update is issued by phase2Commit", "all-or-nothing registry update (a commit point) issued outside phase2Commit", nil)
-			} else {
-				c.Held(r2, construct, cs.Call.Pos(), "allOrNothing=false (staging / undo write)")
-			}
-		}
-	}
-	c.Check(nTrue == 1, r2, "workspace: number of allOrNothing=true registry updates", w.Fn(kTxp2).Decl.Pos(), "exactly one", fmt.Sprintf("found %d", nTrue), nil)
-	// FlipActiveID callers
-	flipCallers := []string{}
-	for _, f := range w.allDeclared() {
-		for _, cs := range w.AllSites(f) {
-			if cs.Key == "sop.Handle.FlipActiveID" {
-				flipCallers = append(flipCallers, f.Key)
-			}
-		}
-	}
-	okFlip := len(flipCallers) >= 1
-	allowedFlip := map[string]bool{"common.nodeRepositoryBackend.activateInactiveNodes": true}
-	for _, k := range flipCallers {
-		if !allowedFlip[k] {
-			okFlip = false
-		}
-	}
-	c.Check(okFlip, r2, "callers of Handle.FlipActiveID", w.Fn("sop.Handle.FlipActiveID").Decl.Pos(), fmt.Sprintf("only %v", flipCallers), fmt.Sprintf("FlipActiveID called from %v; only activateInactiveNodes may flip", flipCallers), nil)
-	// writers of IsActiveIDB outside package sop's Handle methods
-	fld := w.Field("sop", "Handle", "IsActiveIDB")
-	var bad []string
-	for _, f := range fieldWriters(w, fld) {
-		if f.Pkg != w.Pkg("sop") && f.Pkg != w.Pkg("encoding") {
-			bad = append(bad, f.Key)
-		}
-	}
-	c.Check(len(bad) == 0, r2, "writers of Handle.IsActiveIDB", fld.Pos(), "only Handle's own methods and the codec write the active-id selector", fmt.Sprintf("active-id selector written by %v", bad), nil)
-	// activateInactiveNodes is called only from phase1Commit, after the priority log (C08) and its
-	// result reaches the registry only via t.updatedNodeHandles in phase2Commit.
-	var actCallers []string
-	for _, f := range w.allDeclared() {
-		for _, cs := range w.AllSites(f) {
-			if cs.Key == "common.nodeRepositoryBackend.activateInactiveNodes" {
-				actCallers = append(actCallers, f.Key)
-			}
-		}
-	}
-	c.Check(len(actCallers) == 1 && actCallers[0] == kTxp1, r2, "callers of activateInactiveNodes", w.Fn("common.nodeRepositoryBackend.activateInactiveNodes").Decl.Pos(),
-		"only phase1Commit", fmt.Sprintf("called from %v", actCallers), nil)
-	// in phase1Commit, after activateInactiveNodes no registry mutation is reachable
-	{
-		f := w.Fn(kTxp1)
-		g := w.G(f)
-		c.Analysed(f)
-		act := g.Find(calls("common.nodeRepositoryBackend.activateInactiveNodes"))
-		regMut := w.callsReaching(kRegUpdNL, kRegUpd, kRegAdd, kRegRemove)
-		offs := g.MustFollow(act, func(n *GNode) bool { return false }, regMut)
-		c.Offences(g, offs, r2, "phase1Commit: no registry mutation after the in-memory flip", f.Decl.Pos(),
-			"no call reaching a registry mutator is reachable after activateInactiveNodes", "registry mutation reachable in phase 1 after handles were flipped in memory")
-	}
+	ruleSingleCommitPoint(c, r2)
 
 	// R3: nothing can fail after the commit point.
 	r3 := c.Rule("R3", "phase2Commit: after the successful all-or-nothing registry update no path returns a non-nil error; Phase2Commit sets committed=true only on phase2Commit's nil path", 3)
-	{
-		f := w.Fn(kTxp2)
-		g := w.G(f)
-		c.Analysed(f)
-		for _, n := range g.Find(calls(kRegUpdNL)) {
-			for _, cs := range n.Calls {
-				if cs.Key != kRegUpdNL {
-					continue
-				}
-				_, succ, ok := g.ErrBranches(n, cs)
-				if !ok {
-					c.Violated(r3, "phase2Commit: commit point error untested", cs.Call.Pos(), "the commit point's error is not tested", nil)
-					continue
-				}
-				r := g.Reach(succ, nil, nil)
-				var offs []Offence
-				for _, x := range g.Nodes {
-					if r.Seen[x.ID] && x.Ret != nil && g.ClassifyReturn(x) != RetNil {
-						offs = append(offs, Offence{x, r.Path(x.ID)})
-					}
-				}
-				c.Offences(g, offs, r3, "phase2Commit: returns after the commit point are nil", cs.Call.Pos(), "every return reachable after the successful commit point returns the literal nil", "an error can be returned after the registry flip succeeded (caller would roll back a committed transaction)")
-			}
-		}
-		// when there is nothing to flip (no updated/removed handles) the same holds after the finalizeCommit log
-		// the only error returns are: finalizeCommit log failure and the commit point failure.
-		nonNil := 0
-		for _, x := range g.Nodes {
-			if x.Ret != nil && g.ClassifyReturn(x) != RetNil {
-				nonNil++
-				// must not be preceded by any call reaching cleanup / replicate / unlockTrackedItems
-				post := w.callsReaching("common.Transaction.cleanup", "common.Transaction.populateMru", "common.Transaction.unlockTrackedItems")
-				r := g.Reach([]int{g.Entry}, func(n *GNode) bool { return n == x }, nil)
-				_ = r
-				offs := g.MustPrecede(func(n *GNode) bool { return false }, func(n *GNode) bool { return false })
-				_ = offs
-				_ = post
-			}
-		}
-		c.Check(nonNil <= 2, r3, "phase2Commit: error return inventory", f.Decl.Pos(), fmt.Sprintf("%d non-nil returns (finalizeCommit log failure, commit point failure)", nonNil), fmt.Sprintf("%d error returns in phase2Commit; expected at most the log failure and the commit point failure", nonNil), nil)
-	}
-	{
-		f := w.Fn(kTxP2)
-		g := w.G(f)
-		c.Analysed(f)
-		committed := w.Field("common", "Transaction", "committed")
-		// writes of committed=true must not be reachable from the failure edge of phase2Commit
-		for _, n := range g.Find(calls(kTxp2)) {
-			for _, cs := range n.Calls {
-				if cs.Key != kTxp2 {
-					continue
-				}
-				fail, _, ok := g.ErrBranches(n, cs)
-				if !ok {
-					c.Violated(r3, "Phase2Commit: phase2Commit error untested", cs.Call.Pos(), "error result not tested", nil)
-					continue
-				}
-				r := g.Reach(fail, nil, nil)
-				var offs []Offence
-				for _, x := range g.Nodes {
-					if r.Seen[x.ID] && g.assignsObj(x, committed) {
-						offs = append(offs, Offence{x, r.Path(x.ID)})
-					}
-				}
-				c.Offences(g, offs, r3, "Phase2Commit: committed not set on the failure path", cs.Call.Pos(), "no write to t.committed is reachable from phase2Commit's failure edge", "t.committed written after phase2Commit failed")
-			}
-		}
-	}
+	ruleNothingFailsAfterCommitPoint(c, r3)
 
 	// R4: failure => rollback, non-nil.
 	r4 := c.Rule("R4", "Phase1Commit/Phase2Commit: every path on which phase1Commit/phase2Commit returned non-nil passes t.rollback and returns a non-nil error", 4)
@@ -280,4 +139,159 @@ func ordinalOf(w *World, root *Func, cs *CallSite) int {
 		}
 	}
 	return 0
+}
+
+// ruleSingleCommitPoint (C01.R2, shared by C37.R2).
+func ruleSingleCommitPoint(c *Ctx, r2 string) {
+	w := c.W
+	nTrue := 0
+	for _, f := range w.allDeclared() {
+		for _, cs := range w.AllSites(f) {
+			if cs.Key != kRegUpdNL || len(cs.Call.Args) < 2 {
+				continue
+			}
+			root := cs.In
+			for root.Parent != nil {
+				root = root.Parent
+			}
+			tv := cs.In.Pkg.TypesInfo.Types[cs.Call.Args[1]]
+			construct := fmt.Sprintf("%s: UpdateNoLocks allOrNothing argument #%d", root.Key, ordinalOf(w, root, cs))
+			if tv.Value == nil {
+				// pass-through of the implementation's own parameter is the accepted idiom
+				c.Violated(r2, construct, cs.Call.Pos(), "allOrNothing argument is not a constant; cannot tell whether this is a second commit point", nil)
+				continue
+			}
+			if constant.BoolVal(tv.Value) {
+				nTrue++
+				c.Check(root.Key == kTxp2, r2, construct, cs.Call.Pos(), "all-or-nothing registry update is issued by phase2Commit", "all-or-nothing registry update (a commit point) issued outside phase2Commit", nil)
+			} else {
+				c.Held(r2, construct, cs.Call.Pos(), "allOrNothing=false (staging / undo write)")
+			}
+		}
+	}
+	c.Check(nTrue == 1, r2, "workspace: number of allOrNothing=true registry updates", w.Fn(kTxp2).Decl.Pos(), "exactly one", fmt.Sprintf("found %d", nTrue), nil)
+	// FlipActiveID callers
+	flipCallers := []string{}
+	for _, f := range w.allDeclared() {
+		for _, cs := range w.AllSites(f) {
+			if cs.Key == "sop.Handle.FlipActiveID" {
+				flipCallers = append(flipCallers, f.Key)
+			}
+		}
+	}
+	okFlip := len(flipCallers) >= 1
+	allowedFlip := map[string]bool{"common.nodeRepositoryBackend.activateInactiveNodes": true}
+	for _, k := range flipCallers {
+		if !allowedFlip[k] {
+			okFlip = false
+		}
+	}
+	c.Check(okFlip, r2, "callers of Handle.FlipActiveID", w.Fn("sop.Handle.FlipActiveID").Decl.Pos(), fmt.Sprintf("only %v", flipCallers), fmt.Sprintf("FlipActiveID called from %v; only activateInactiveNodes may flip", flipCallers), nil)
+	// writers of IsActiveIDB outside package sop's Handle methods
+	fld := w.Field("sop", "Handle", "IsActiveIDB")
+	var bad []string
+	for _, f := range fieldWriters(w, fld) {
+		if f.Pkg != w.Pkg("sop") && f.Pkg != w.Pkg("encoding") {
+			bad = append(bad, f.Key)
+		}
+	}
+	c.Check(len(bad) == 0, r2, "writers of Handle.IsActiveIDB", fld.Pos(), "only Handle's own methods and the codec write the active-id selector", fmt.Sprintf("active-id selector written by %v", bad), nil)
+	// activateInactiveNodes is called only from phase1Commit, after the priority log (C08) and its
+	// result reaches the registry only via t.updatedNodeHandles in phase2Commit.
+	var actCallers []string
+	for _, f := range w.allDeclared() {
+		for _, cs := range w.AllSites(f) {
+			if cs.Key == "common.nodeRepositoryBackend.activateInactiveNodes" {
+				actCallers = append(actCallers, f.Key)
+			}
+		}
+	}
+	c.Check(len(actCallers) == 1 && actCallers[0] == kTxp1, r2, "callers of activateInactiveNodes", w.Fn("common.nodeRepositoryBackend.activateInactiveNodes").Decl.Pos(),
+		"only phase1Commit", fmt.Sprintf("called from %v", actCallers), nil)
+	// in phase1Commit, after activateInactiveNodes no registry mutation is reachable
+	{
+		f := w.Fn(kTxp1)
+		g := w.G(f)
+		c.Analysed(f)
+		act := g.Find(calls("common.nodeRepositoryBackend.activateInactiveNodes"))
+		regMut := w.callsReaching(kRegUpdNL, kRegUpd, kRegAdd, kRegRemove)
+		offs := g.MustFollow(act, func(n *GNode) bool { return false }, regMut)
+		c.Offences(g, offs, r2, "phase1Commit: no registry mutation after the in-memory flip", f.Decl.Pos(),
+			"no call reaching a registry mutator is reachable after activateInactiveNodes", "registry mutation reachable in phase 1 after handles were flipped in memory")
+	}
+
+}
+
+// ruleNothingFailsAfterCommitPoint (C01.R3, shared by C14.R5).
+func ruleNothingFailsAfterCommitPoint(c *Ctx, r3 string) {
+	w := c.W
+	{
+		f := w.Fn(kTxp2)
+		g := w.G(f)
+		c.Analysed(f)
+		for _, n := range g.Find(calls(kRegUpdNL)) {
+			for _, cs := range n.Calls {
+				if cs.Key != kRegUpdNL {
+					continue
+				}
+				_, succ, ok := g.ErrBranches(n, cs)
+				if !ok {
+					c.Violated(r3, "phase2Commit: commit point error untested", cs.Call.Pos(), "the commit point's error is not tested", nil)
+					continue
+				}
+				r := g.Reach(succ, nil, nil)
+				var offs []Offence
+				for _, x := range g.Nodes {
+					if r.Seen[x.ID] && x.Ret != nil && g.ClassifyReturn(x) != RetNil {
+						offs = append(offs, Offence{x, r.Path(x.ID)})
+					}
+				}
+				c.Offences(g, offs, r3, "phase2Commit: returns after the commit point are nil", cs.Call.Pos(), "every return reachable after the successful commit point returns the literal nil", "an error can be returned after the registry flip succeeded (caller would roll back a committed transaction)")
+			}
+		}
+		// when there is nothing to flip (no updated/removed handles) the same holds after the finalizeCommit log
+		// the only error returns are: finalizeCommit log failure and the commit point failure.
+		nonNil := 0
+		for _, x := range g.Nodes {
+			if x.Ret != nil && g.ClassifyReturn(x) != RetNil {
+				nonNil++
+				// must not be preceded by any call reaching cleanup / replicate / unlockTrackedItems
+				post := w.callsReaching("common.Transaction.cleanup", "common.Transaction.populateMru", "common.Transaction.unlockTrackedItems")
+				r := g.Reach([]int{g.Entry}, func(n *GNode) bool { return n == x }, nil)
+				_ = r
+				offs := g.MustPrecede(func(n *GNode) bool { return false }, func(n *GNode) bool { return false })
+				_ = offs
+				_ = post
+			}
+		}
+		c.Check(nonNil <= 2, r3, "phase2Commit: error return inventory", f.Decl.Pos(), fmt.Sprintf("%d non-nil returns (finalizeCommit log failure, commit point failure)", nonNil), fmt.Sprintf("%d error returns in phase2Commit; expected at most the log failure and the commit point failure", nonNil), nil)
+	}
+	{
+		f := w.Fn(kTxP2)
+		g := w.G(f)
+		c.Analysed(f)
+		committed := w.Field("common", "Transaction", "committed")
+		// writes of committed=true must not be reachable from the failure edge of phase2Commit
+		for _, n := range g.Find(calls(kTxp2)) {
+			for _, cs := range n.Calls {
+				if cs.Key != kTxp2 {
+					continue
+				}
+				fail, _, ok := g.ErrBranches(n, cs)
+				if !ok {
+					c.Violated(r3, "Phase2Commit: phase2Commit error untested", cs.Call.Pos(), "error result not tested", nil)
+					continue
+				}
+				r := g.Reach(fail, nil, nil)
+				var offs []Offence
+				for _, x := range g.Nodes {
+					if r.Seen[x.ID] && g.assignsObj(x, committed) {
+						offs = append(offs, Offence{x, r.Path(x.ID)})
+					}
+				}
+				c.Offences(g, offs, r3, "Phase2Commit: committed not set on the failure path", cs.Call.Pos(), "no write to t.committed is reachable from phase2Commit's failure edge", "t.committed written after phase2Commit failed")
+			}
+		}
+	}
+
 }
